@@ -144,6 +144,18 @@ func init() {
 				// `f` directly followed by an identifier character would be an identifier: keep a space
 				txt = strings.ReplaceAll(txt, "f+", "f +")
 			}
+			// the same expression evaluated in a nested context (function body, computed value, template block, a second read on
+			// the same VM): value, bracket and generator use are those of the bare expression
+			switch r.intn(9) {
+			case 0:
+				txt = "func w9(n9) { return " + txt + " }; w9(3)"
+			case 1:
+				txt = "&cv9 = " + txt + "; cv9"
+			case 2:
+				txt = "func w9() { &cv9 = " + txt + "; return cv9 }; w9()"
+			case 3:
+				txt = "&cv9 = " + txt + "; func w9() { return cv9 }; w9()"
+			}
 			hi, lo := r.u64(), r.u64()
 			row := map[string]any{"expr": e, "text": txt, "hi": u(hi), "lo": u(lo)}
 			for _, mode := range []int{-1, 0, 1} {
